@@ -119,3 +119,36 @@ SPECS['nan_combinations'] = FunctionSpec(qual='nan_combinations', file=FILE, par
     ensures=lambda o, n, res: [],        # the exact post-condition is the outer invariant at exit, re-stated as ghost assertion below (needs the callee's result)
     locals={'nan_combis': AllT, 'nan_combination': AllT},
     loops={0: LoopSpec(inv=nan_outer_inv), 1: LoopSpec(inv=nan_inner_inv)})
+
+
+# ---------------------------------------------------------------------------------------------- order_apply_combination
+import contracts.grouped_list as GLC
+from contracts.grouped_list import GL, WF, L, K, grp, same_members_except, Has as HasV, Nodup as NodupV
+for _k in ('GroupedList.group_list', 'GroupedList.__init__@copy', 'GroupedList.__init__@list', 'GroupedList.__init__@dict'):
+    _c = __import__('copy').copy(GLC.SPECS[_k]); _c.pure = True; _c.note = 'ASSUMED here, proved in contracts.grouped_list'; SPECS[_k] = _c
+
+def comb_wellformed(order, comb):
+    j, i2 = Int('j_oa'), Int('i_oa'); x = Const('x_oa', Val)
+    return And(
+        ForAll([j], Implies(And(0 <= j, j < cm.Len(comb)), And(g.Len(cm.At(comb, j)) >= 1, NodupV(cm.At(comb, j)))), patterns=[cm.At(comb, j)]),
+        ForAll([j, x], Implies(And(0 <= j, j < cm.Len(comb), HasV(cm.At(comb, j), x)), HasV(L(order), x)), patterns=[HasV(cm.At(comb, j), x)]),
+        ForAll([j, i2, x], Implies(And(0 <= j, j < i2, i2 < cm.Len(comb), HasV(cm.At(comb, j), x)), Not(HasV(cm.At(comb, i2), x))), patterns=[MultiPattern(HasV(cm.At(comb, j), x), cm.At(comb, i2))]))
+
+def oac_state(order, oc, comb, k):
+    """order_copy after the first k groups of the combination were merged under their first element"""
+    j = Int('j_os'); x, v = Consts('x_os v_os', Val)
+    head = lambda jj: g.At(cm.At(comb, jj), 0)
+    return And(WF(oc), same_members_except(order, oc),
+        # groups not processed yet: their modalities are still leaders with their own members
+        ForAll([j, x], Implies(And(k <= j, j < cm.Len(comb), HasV(cm.At(comb, j), x)), And(HasV(L(oc), x), grp(oc, x) == grp(order, x))), patterns=[HasV(cm.At(comb, j), x)]),
+        # processed groups: every member value of every modality of the group sits under the group's first modality, which is still a leader
+        ForAll([j, x, v], Implies(And(0 <= j, j < k, HasV(cm.At(comb, j), x), HasV(grp(order, x), v)), And(HasV(L(oc), head(j)), HasV(grp(oc, head(j)), v))), patterns=[MultiPattern(HasV(cm.At(comb, j), x), HasV(grp(order, x), v))]),
+        ForAll([j, x], Implies(And(0 <= j, j < k, HasV(cm.At(comb, j), x), x != head(j)), Not(HasV(L(oc), x))), patterns=[MultiPattern(HasV(cm.At(comb, j), x), HasV(L(oc), x))]),
+        # leaders never come from nowhere
+        ForAll([x], Implies(HasV(L(oc), x), HasV(L(order), x)), patterns=[HasV(L(oc), x)]))
+
+SPECS['order_apply_combination'] = FunctionSpec(qual='order_apply_combination', file=FILE, params=[('order', GL), ('combination', Cmb)], returns=GL,
+    requires=lambda o: And(WF(o['order']), comb_wellformed(o['order'], o['combination'])),
+    ensures=lambda o, n, r: [('merged_view', oac_state(o['order'], r, o['combination'], cm.Len(o['combination'])))],
+    locals={'order_copy': GL},
+    loops={0: LoopSpec(inv=lambda o, v, k: oac_state(o['order'], v['order_copy'], o['combination'], k))})
